@@ -141,9 +141,9 @@ class Scale(EnvironmentFilter):
         #get the potential keys to scale
         potential_keys = None
         if is_dense_context:
-            potential_keys = [i for i,v in enumerate(first_context) if isinstance(v,(int,float))]
+            potential_keys = [i for i,v in enumerate(first_context) if v is None or isinstance(v,(int,float))]
         if is_sparse_context:
-            unscalable_cols = {k for k,v in first_context.items() if not isinstance(v,(int,float))}
+            unscalable_cols = {k for k,v in first_context.items() if v is not None and not isinstance(v,(int,float))}
             potential_keys  = set().union(*map(methodcaller("keys"),fitting_contexts)) - unscalable_cols
         if is_value_context:
             potential_keys = [0]
@@ -177,7 +177,8 @@ class Scale(EnvironmentFilter):
             for interaction in chain(fitting_interactions, remaining_interactions):
                 context = interaction['context']
                 for i,(shift,scale) in scaling_tuples:
-                    context[i] = (context[i]+shift)*scale
+                    if isinstance(context[i],(int,float)):
+                        context[i] = (context[i]+shift)*scale
                 yield interaction
 
         if is_sparse_context:
@@ -186,14 +187,15 @@ class Scale(EnvironmentFilter):
                 context = interaction['context']
                 for k in scaling_dict.keys() & context.keys():
                     (shift,scale) = scaling_dict[k]
-                    context[k] = (context[k]+shift)*scale
+                    if isinstance(context[k],(int,float)):
+                        context[k] = (context[k]+shift)*scale
                 yield interaction
 
         elif is_value_context:
             (shift,scale) = list(scaling_vals)[0]
             for interaction in chain(fitting_interactions, remaining_interactions):
                 new = interaction.copy()
-                if new['context'] is not None:
+                if isinstance(new['context'],(int,float)):
                     new['context'] = (new['context']+shift)*scale
                 yield new
 
